@@ -221,7 +221,8 @@ func ToBoolean(ctx *expr.Context, input system.Collection, args ...expr.Expressi
 	// Input reading
 	value, err := system.From(input[0])
 	if err != nil {
-		return nil, err
+		// a complex element is not convertible: the result is empty
+		return system.Collection{}, nil
 	}
 	// Input conversion
 	switch value := value.(type) {
@@ -337,7 +338,8 @@ func ToDecimal(ctx *expr.Context, input system.Collection, args ...expr.Expressi
 	// Input reading
 	value, err := system.From(input[0])
 	if err != nil {
-		return nil, err
+		// a complex element is not convertible: the result is empty
+		return system.Collection{}, nil
 	}
 	// Input conversion
 	switch value.(type) {
@@ -383,7 +385,8 @@ func ToInteger(ctx *expr.Context, input system.Collection, args ...expr.Expressi
 	// Input reading
 	value, err := system.From(input[0])
 	if err != nil {
-		return nil, err
+		// a complex element is not convertible: the result is empty
+		return system.Collection{}, nil
 	}
 	// Input conversion
 	switch value.(type) {
@@ -433,7 +436,8 @@ func ToQuantity(ctx *expr.Context, input system.Collection, args ...expr.Express
 	// Input reading
 	value, err := system.From(input[0])
 	if err != nil {
-		return nil, err
+		// a complex element is not convertible: the result is empty
+		return system.Collection{}, nil
 	}
 	// Input conversion
 	switch value := value.(type) {
